@@ -41,7 +41,7 @@ from deep.processor.context.action_context import ActionContext
 from deep.processor.context.action_results import ActionResult, ActionCallback
 from deep.processor.context.log_action import LOG_MSG, LogActionContext, LogActionResult
 from deep.processor.frame_collector import FrameCollectorContext, FrameCollector
-from deep.processor.variable_set_processor import VariableProcessorConfig
+from deep.processor.variable_set_processor import VariableProcessorConfig, VariableCacheProvider
 
 if TYPE_CHECKING:
     from deep.processor.context.trigger_context import TriggerContext
@@ -108,9 +108,12 @@ class SnapshotActionContext(FrameCollectorContext, ActionContext):
         return self.location_action.config.get(LOG_MSG, None)
 
     def _process_action(self):
+        # each snapshot is complete on its own: it gets its own variable table and identity cache, so that
+        # tracepoints sharing a location (or trace event) do not empty or alter one another's variables
+        self.var_cache = VariableCacheProvider()
         collector = FrameCollector(self, self.trigger_context.frame)
 
-        frames, variables = collector.collect(self.trigger_context.vars, self.trigger_context.var_cache)
+        frames, variables = collector.collect({}, self.var_cache)
 
         snapshot = EventSnapshot(self.location_action.tracepoint, self.trigger_context.ts,
                                  self.trigger_context.resource, frames, variables)
@@ -127,6 +130,8 @@ class SnapshotActionContext(FrameCollectorContext, ActionContext):
             context = LogActionContext(self.trigger_context, LocationAction(self.location_action.id, None, {
                 LOG_MSG: log_msg,
             }, LocationAction.ActionType.Log))
+            # the log expressions are part of this snapshot: share its identity cache
+            context.var_cache = self.var_cache
             log, watches, log_vars = context.process_log(log_msg)
             snapshot.log_msg = log
             for watch in watches:
